@@ -5,4 +5,9 @@ import (
 	"verifharness/drv"
 )
 
-func main() { drv.Main("C02", c02.Run) }
+func main() {
+	drv.Main("C02", func(o *drv.Out) {
+		c02.Run(o)
+		c02.RunE2E(o)
+	})
+}
